@@ -212,8 +212,27 @@ def _caught(node, names):
 def check_stream(P, R):
     f = P.func(f'{SS}:_file_iter_range')
     g, rd = f.cfg, f.rd
-    fp, offset, count = f.params[0], f.params[1], f.params[2]
-    maxread = f.params[3] if len(f.params) > 3 else None
+    fp = f.params[0]
+    npos = len(f.node.args.args)
+    if npos >= 3:
+        offset, count = f.params[1], f.params[2]
+        maxread = f.params[3] if len(f.params) > 3 else None
+    else:
+        # the slice may arrive as one (start, end) pair: `offset, end = pair; bytes_len = end - offset`
+        R.require(npos == 2, f'{f.fq}: parameters not recognised')
+        pair = f.params[1]
+        unp = [st for st in f.node.body if isinstance(st, ast.Assign) and isinstance(st.targets[0], ast.Tuple) and len(st.targets[0].elts) == 2
+               and isinstance(st.value, ast.Name) and st.value.id == pair and all(isinstance(e, ast.Name) for e in st.targets[0].elts)]
+        R.require(len(unp) == 1, f'{f.fq}: `start, end = {pair}` not found')
+        offset, end_n = [e.id for e in unp[0].targets[0].elts]
+        lens = [st for st in f.node.body if isinstance(st, ast.Assign) and len(st.targets) == 1 and isinstance(st.targets[0], ast.Name)
+                and src(st.value).replace(' ', '') == f'{end_n}-{offset}']
+        R.require(len(lens) == 1, f'{f.fq}: `<length> = {end_n} - {offset}` not found')
+        count = lens[0].targets[0].id
+        rebound = [d for ds2 in rd.gen.values() for d in ds2 if d.name in (offset, end_n) and d.stmt is not unp[0]]
+        R.ob('C17.c', f, unp[0], not rebound, text=f'{offset}, {end_n} = {pair}; {count} = {end_n} - {offset}', detail='' if not rebound else
+             'the bounds taken from the pair are re-bound afterwards', nontrivial=False)
+        maxread = f.params[2] if len(f.params) > 2 else None
     loops = [n for n in walk_shallow(f.node) if isinstance(n, ast.While)]
     R.require(len(loops) == 1, f'{f.fq}: expected one loop')
     loop = loops[0]
@@ -487,6 +506,11 @@ def check_static_file(P, R):
         ok = len(a) >= 3 and isinstance(a[1], ast.Name) and a[1].id == off and isinstance(a[2], ast.BinOp) \
             and isinstance(a[2].op, ast.Sub) and src(a[2].left) == end and src(a[2].right) == off \
             and all(d.stmt is un for d in rd.at(sn, off) + rd.at(sn, end))
+        if not ok and len(c.args) == 2 and len(P.func(f'{SS}:_file_iter_range').node.args.args) == 2:
+            # the (start, end) pair handed over whole: the parser's result itself, or the two names unpacked from it
+            a1 = c.args[1]
+            ok = (isinstance(a1, ast.Name) and a1.id == res and bool(rd.at(sn, res)) and all(d.value is call for d in rd.at(sn, res))) or \
+                (isinstance(a1, ast.Tuple) and [src(e) for e in a1.elts] == [off, end] and all(d.stmt is un for d in rd.at(sn, off) + rd.at(sn, end)))
         R.ob('C17.a', f, c, ok, detail='' if ok else f'the iterator must get ({off}, {end} - {off})')
         # body wrapped only if truthy (HEAD keeps '')
         okb = False
